@@ -17,6 +17,7 @@ package main
 
 import (
 	"fmt"
+	"sort"
 	"strconv"
 	"strings"
 
@@ -31,6 +32,9 @@ func field(line, key string) string {
 	}
 	return ""
 }
+
+// knownClasses: failure classes recorded as known findings (see notes/C10.md, F13).
+var knownClasses = map[string]bool{"client-composed:ns-disable-under-narrower-non-disable": true}
 
 func orPermissive(m string) string {
 	if m == "UNKNOWN" {
@@ -58,16 +62,40 @@ func oracle(stream, in, outp string) {
 			out.Line(verdict)
 		}
 	}
+	verdictKnownClass := false
 	fail := func(clause, class, detail string) {
-		if verdict == "" {
+		// first failure of the case wins, except that a failure of a recorded known-finding class never
+		// hides a different failure later in the same case
+		known := knownClasses[clause+":"+class]
+		if verdict == "" || (verdictKnownClass && !known) {
 			verdict = fmt.Sprintf("FAIL %s %s op=%d %s", clause, class, idx, wire.Enc(detail))
+			verdictKnownClass = known
 		}
+	}
+	// version-tracks-spec: per view, a version string must never stand for two different policy contents
+	versionSpec := map[string]string{}
+	checkVersion := func(view, version string, keep func(paIn) bool) {
+		var specs []string
+		for _, p := range s.pas {
+			if keep(p) {
+				q := p
+				q.rv = 0
+				specs = append(specs, strings.Join(q.line(), " "))
+			}
+		}
+		sort.Strings(specs)
+		desc := strings.Join(specs, ";")
+		if old, ok := versionSpec[view+"|"+version]; ok && old != desc {
+			fail("version-tracks-spec", "same-version-for-different-policies", fmt.Sprintf("view %s: %s vs %s", view, old, desc))
+		}
+		versionSpec[view+"|"+version] = desc
 	}
 	for _, f := range wire.ReadLines(in) {
 		if f[0] == "case" {
+			versionSpec = map[string]string{}
 			flush()
 			s.apply(f)
-			verdict, caseOpen, idx = "", true, 0
+			verdict, caseOpen, idx, verdictKnownClass = "", true, 0, false
 			continue
 		}
 		idx++
@@ -78,6 +106,7 @@ func oracle(stream, in, outp string) {
 				fail("never-crashes", "crash", strings.Join(f, " "))
 				continue
 			}
+			checkVersion("full", s.policies().GetVersion(), func(paIn) bool { return true })
 			ns, labels, svcNs := wire.Dec(f[1]), parseLabels(f[2]), wire.DecList(f[3])
 			if len(svcNs) > 0 && svcNs[0] != ns && svcNs[0] != s.root {
 				continue // waypoint lookup in a service namespace: outside the property's statement
@@ -105,6 +134,21 @@ func oracle(stream, in, outp string) {
 			}
 			p, _ := strconv.ParseUint(f[3], 10, 32)
 			ns := wire.Dec(f[1])
+			{
+				keptNs := map[string]bool{wire.Dec(f[6]): true, s.root: true}
+				for _, n := range wire.DecList(f[7]) {
+					keptNs[n] = true
+				}
+				var names []string
+				for n := range keptNs {
+					names = append(names, n)
+				}
+				sort.Strings(names)
+				checkVersion("view:"+strings.Join(names, ","), s.scopedVersion(wire.Dec(f[6]), wire.DecList(f[7])),
+					// the filtered view only holds the configs of the per-namespace map: a selector-less policy
+					// that is not the oldest of its namespace was dropped by the singleton check and has no effect
+					func(p paIn) bool { return keptNs[p.ns] && !s.shadowed(p) })
+			}
 			// the statement covers endpoints whose namespace the client's sidecar scope keeps
 			kept := ns == wire.Dec(f[6]) || ns == s.root
 			for _, n := range wire.DecList(f[7]) {
@@ -113,14 +157,26 @@ func oracle(stream, in, outp string) {
 			if !kept {
 				continue
 			}
+			chkOn := strings.Fields(res)[0] == "1"
+			eff := effectiveMode(s.pas, s.root, ns, parseLabels(f[2]), uint32(p))
+			nsLevel := effectiveMode(s.pas, s.root, ns, nil, 0)
 			if f[5] == "nil" && f[4] == "1" {
-				want := effectiveMode(s.pas, s.root, ns, parseLabels(f[2]), uint32(p)) != "DISABLE"
-				if (strings.Fields(res)[0] == "1") != want {
-					fail("client-agrees", "checkMtlsEnabled", fmt.Sprintf("real %s spec-not-disable %v", res, want))
+				if chkOn != (eff != "DISABLE") {
+					fail("client-agrees", "checkMtlsEnabled", fmt.Sprintf("real %s spec-not-disable %v", res, eff != "DISABLE"))
 				}
 			}
-			if got, want := field(res, "BE"), effectiveMode(s.pas, s.root, ns, nil, 0); got != want {
-				fail("namespace-mode", "BestEffortInferServiceMTLSMode-on-sidecar-scope-view", fmt.Sprintf("real %s spec %s", got, want))
+			be := field(res, "BE")
+			if be != nsLevel {
+				fail("namespace-mode", "BestEffortInferServiceMTLSMode-on-sidecar-scope-view", fmt.Sprintf("real %s spec %s", be, nsLevel))
+			}
+			if f[5] == "nil" && f[4] == "1" {
+				// the COMPOSED client decision: the cluster has the TLS transport-socket match (service mode
+				// neither UNKNOWN nor DISABLE) and the endpoint keeps its tlsMode label
+				composed := chkOn && be != "DISABLE" && be != "UNKNOWN"
+				if composed != (eff != "DISABLE") {
+					fail("client-composed", composedClass(composed, chkOn, eff, nsLevel),
+						fmt.Sprintf("port %d client-sends-mtls %v effective %s namespace-level %s", p, composed, eff, nsLevel))
+				}
 			}
 		case "il", "ils":
 			res := s.apply(f)
@@ -143,4 +199,26 @@ func oracle(stream, in, outp string) {
 		}
 	}
 	flush()
+}
+
+// composedClass names the cause of a composed-client failure: F13 = the cluster-side decision sees the
+// namespace/mesh level only, so a namespace-level DISABLE hides a narrower non-DISABLE policy.
+func composedClass(composed, endpointLabelKept bool, eff, nsLevel string) string {
+	if !composed && endpointLabelKept && eff != "DISABLE" && nsLevel == "DISABLE" {
+		return "ns-disable-under-narrower-non-disable"
+	}
+	return "other"
+}
+
+// shadowed: a namespace/mesh-level policy that is not the oldest one of its namespace (ignored by every resolver).
+func (s *sut) shadowed(p paIn) bool {
+	if p.hasSelector() {
+		return false
+	}
+	for _, q := range s.pas {
+		if !q.hasSelector() && q.ns == p.ns && older(q, p) {
+			return true
+		}
+	}
+	return false
 }
